@@ -7,6 +7,7 @@ import (
 	"math/big"
 	"strconv"
 	"strings"
+	"sync"
 	"unicode/utf8"
 )
 
@@ -233,6 +234,9 @@ func (x *Exec) strCompare(a, b *StrV, st *State) *Term {
 	return mkIte(mkLt(ka, kb), mkInt(-1), mkIte(mkGt(ka, kb), mkInt(1), mkInt(0)))
 }
 
+var strEqMemo = map[string]*Term{}
+var strEqMu sync.Mutex
+
 func (x *Exec) strEqual(a, b *StrV) *Term {
 	if a == b && !a.Opaque {
 		return tTrue
@@ -256,6 +260,23 @@ func (x *Exec) strEqual(a, b *StrV) *Term {
 		return res
 	}
 	if a.Opaque || b.Opaque {
+		// an unknown string against a literal: an unknown boolean, the same one every time the same string object is
+		// compared with the same literal (nothing is assumed about different literals)
+		o, l := a, b
+		if !o.Opaque {
+			o, l = b, a
+		}
+		if lit, ok := l.isLit(); ok && o.Opaque {
+			key := fmt.Sprintf("%p|%s", o, lit)
+			strEqMu.Lock()
+			v, ok := strEqMemo[key]
+			if !ok {
+				v = freshVar("streq", SBool)
+				strEqMemo[key] = v
+			}
+			strEqMu.Unlock()
+			return v
+		}
 		unsup("equality of unmodelled strings (%s, %s)", a.Tag, b.Tag)
 	}
 	if a.Fmt == nil && b.Fmt == nil {
